@@ -52,6 +52,8 @@ def instances(tier, seed):
             extra_s=xs, extra_o=xo, cost=4)
     # repeated extension with the same fragment (as replace does): extend_types once, extend twice
     add("ext:bond:twice", Ns=3, No=2, kind='bond', S=1, topo=0, tables='both', mode='twice', cost=60)
+    add("ext:bond:twice-same-map-object", Ns=3, No=2, kind='bond', S=1, topo=0, tables='both', mode='twice-same-map', cost=30)
+    add("ext:angle:map-later-atom", Ns=3, No=3, kind='angle', S=1, topo=1, tables='both', mode='default', cost=60)
     if big:
         add("ext:bond:S2xO2:map", Ns=4, No=3, kind='bond', S=2, topo=0, tables='both', mode='default', cost=600)
         add("ext:bond:S2xO2b:map", Ns=3, No=3, kind='bond', S=2, topo=2, tables='both', mode='default', cost=300)
@@ -131,6 +133,19 @@ def body(ctx, p):
         m2 = build_map(ctx, No, sp2.N, 'b')
         a.extend(o, offsets=offs, structure_index_map=dict(m2))
         check_extend(ctx, sp2, so, m2, a, shared_offsets=offs, types_already_merged=(sp, so), label='2nd: ')
+    elif p['mode'] == 'twice-same-map':
+        # the caller keeps ONE dict and passes it to two calls (grafting the same fragment twice onto the same atoms)
+        offs = a.extend_types(o)
+        sp1 = spec_from_state(a)
+        m = build_map(ctx, No, Ns, 'a')
+        keep = dict(m)
+        a.extend(o, offsets=offs, structure_index_map=m)
+        check_extend(ctx, sp1, so, keep, a, shared_offsets=offs, types_already_merged=(sp, so), label='1st: ')
+        ctx.require("the caller's identity map is not modified", list(m.keys()) == list(keep.keys()) and all(m[k] is keep[k] or m[k] == keep[k] for k in keep if isinstance(keep[k], int)),
+                    detail=dict(keys=list(m.keys())))
+        sp2 = spec_from_state(a)
+        a.extend(o, offsets=offs, structure_index_map=m)
+        check_extend(ctx, sp2, so, keep, a, shared_offsets=offs, types_already_merged=(sp, so), label='2nd: ')
     # the other structure is not modified
     oa = spec_from_state(o)
     with core.nosimplify():
